@@ -13,7 +13,8 @@ Definition params_ok : bool :=
   (Params.c03_id_extension =? 20) &&
   (Params.c03_max_msg_len =? 1048576) && (Params.c03_piece_min_len =? 9) && (Params.c03_piece_hdr_sub =? 9) &&
   (Params.c03_ext_hdr_sub =? 2) && (Params.c03_ext_limit =? 32768) &&
-  (Params.c03_request_len_limit =? 131072) && (Params.c03_max_request_queue =? 2048) &&
+  (* tuning constants of the upload queue: any positive value (the model follows the compiled value) *)
+  (0 <? Params.c03_request_len_limit) && (0 <? Params.c03_max_request_queue) &&
   (Params.c03_ext_first_invalid =? 3) && (17 <? Params.c03_buffer_size).
 
 Lemma params_ok_now : params_ok = true.
